@@ -84,7 +84,7 @@ def t2s(bdir, s, src, plan, variant="plain", cpu=20):
 def work(a):
     bdir, seed, prof = a
     res = {"runs": 0, "viol": [], "err": None, "case": None, "transparent": 0, "must_error": 0, "rejected": 0, "harmless": 0, "out_ok": 0,
-           "codecs": {}}
+           "codecs": {}, "boundary_hits": 0}
     r = rng(seed, "c15")
 
     def V(clause, detail, **kw):
@@ -177,6 +177,46 @@ def work(a):
             c.argv = ["img.sqfs"]
             po = pipelines.run_case(bdir, c, s, "seed 1\nsched rr\n")
             plain = open(os.path.join(s, ".stdout"), "rb").read()
+            # aim the *uncompressed tar stream* of sqfs2tar at the 256 KiB buffer of the compressing ostream: k * 256 KiB and one
+            # record either side (a flush that finds its buffer just drained / just filled is the interesting state)
+            targets = []
+            if prof.get("out_boundary"):
+                import struct
+                base = len(plain)
+                for tgt in (262144, 524288, 262144 - 512, 262144 + 512):
+                    need = tgt - base - 512
+                    if need <= 0:
+                        continue
+                    fill = tarmodel.TEntry(b"zz_out_fill", "file", content=r.randbytes(need))
+                    d2, _k = tarmodel.emit_archive(kept + [fill], "pax", r)
+                    open(os.path.join(s, "in2.tar"), "wb").write(d2)
+                    t2s(bdir, s, "in2.tar", "seed 1\nsched rr\n")
+                    nm = "img_%d.sqfs" % tgt
+                    shutil.copyfile(os.path.join(s, "out.sqfs"), os.path.join(s, nm))
+                    c.argv = [nm]
+                    pipelines.run_case(bdir, c, s, "seed 1\nsched rr\n")
+                    pl = open(os.path.join(s, ".stdout"), "rb").read()
+                    targets.append((nm, pl, len(pl) == tgt))
+                res["case"]["sqfs2tar_output_sizes"] = [len(t[1]) for t in targets]
+                res["boundary_hits"] = sum(1 for t in targets if t[2])
+            for nm, pl, _hit in targets:
+                for codec in CODECS:
+                    c.argv = ["-c", codec, nm]
+                    o = pipelines.run_case(bdir, c, s, chunk_plan(r))
+                    res["runs"] += 1
+                    blob = open(os.path.join(s, ".stdout"), "rb").read()
+                    if o.rc != 0:
+                        V("sqfs2tar:%s:failed" % codec, "%d byte tar stream: %s %s" % (len(pl), o.verdict, o.stderr[-200:].decode(errors="replace")), kind="out", codec=codec)
+                        continue
+                    try:
+                        dec = decompress(codec, blob)
+                    except Exception as e:
+                        V("sqfs2tar:%s:reference-decompressor-rejects-output" % codec, "%d byte tar stream: %s: %s" % (len(pl), type(e).__name__, e), kind="out", codec=codec)
+                        continue
+                    if dec != pl:
+                        V("sqfs2tar:%s:expands-to-different-bytes" % codec, "%d vs %d bytes" % (len(dec), len(pl)), kind="out", codec=codec)
+                    else:
+                        res["out_ok"] += 1
             for codec in CODECS:
                 c.argv = ["-c", codec, "img.sqfs"]
                 o = pipelines.run_case(bdir, c, s, chunk_plan(r))
@@ -200,7 +240,8 @@ def work(a):
     return res
 
 
-PROFILES = [{"nfiles": 6}, {"nfiles": 5, "xattrs": True}, {"nfiles": 8, "big": True}, {"nfiles": 3, "pad_to": 131072}, {"nfiles": 3, "pad_to": 262144}]
+PROFILES = [{"nfiles": 6}, {"nfiles": 5, "xattrs": True}, {"nfiles": 8, "big": True}, {"nfiles": 3, "pad_to": 131072}, {"nfiles": 3, "pad_to": 262144},
+            {"nfiles": 3, "out_boundary": True}]
 
 
 def replay(spec, bdir=None):
@@ -246,9 +287,12 @@ def main():
         "faults_fired": {"truncated_or_flipped_streams": sum(r["must_error"] for r in results), "rejected": sum(r["rejected"] for r in results),
                          "harmless_same_image_or_reference_decoder_unaffected": sum(r["harmless"] for r in results)},
         "sqfs2tar_compressed_outputs_verified": sum(r["out_ok"] for r in results),
+        "sqfs2tar_outputs_exactly_on_a_256KiB_multiple": sum(r["boundary_hits"] for r in results),
         "components_real": ["tar2sqfs, sqfs2tar, lib/xfrm stream (de)compressors, codec libraries"],
         "components_simulated": ["stdin chunking, EINTR, short stdout writes; stored-byte faults on the compressed stream (truncate, flip)"],
     }
+    if cov["sqfs2tar_outputs_exactly_on_a_256KiB_multiple"] == 0:
+        rep.harness_error("insufficient reach: no sqfs2tar output landed exactly on a multiple of the 256 KiB stream buffer")
     return rep.finish(cov, ["reference decompressors: Python zlib/lzma/bz2 and the libzstd via ctypes",
                             "a flipped byte the reference decompressor does not notice (same decoded archive) is not required to be detected"])
 
